@@ -102,7 +102,15 @@ class NamespaceMapper(MutableMapping[str, str]):
         return self.namespaces[prefix]
 
     def __setitem__(self, prefix: str, uri: str) -> None:
+        old_uri = self.namespaces.get(prefix)
         self.namespaces[prefix] = uri
+        if old_uri is not None and old_uri != uri and \
+                self._reverse.get(old_uri) == (prefix and prefix + ':'):
+            del self._reverse[old_uri]
+            for k in reversed(self.namespaces.keys()):
+                if self.namespaces[k] == old_uri:
+                    self._reverse[old_uri] = k and k + ':'
+                    break
         self._reverse[uri] = prefix and prefix + ':'
 
     def __delitem__(self, prefix: str) -> None:
@@ -224,13 +232,14 @@ class NamespaceMapper(MutableMapping[str, str]):
                     {k: v for k, v in self._reverse.items()},
                 )
                 self._xmlns_contexts.append(context)
+                rebound = {p for p, u in xmlns if self.namespaces.get(p, u) != u}
                 for prefix, uri in xmlns:
                     old_uri = self.namespaces.get(prefix)
                     if old_uri is not None and old_uri != uri and \
                             self._reverse.get(old_uri) == (prefix and prefix + ':'):
                         del self._reverse[old_uri]
                         for k in reversed(self.namespaces.keys()):
-                            if k != prefix and self.namespaces[k] == old_uri:
+                            if k not in rebound and self.namespaces[k] == old_uri:
                                 self._reverse[old_uri] = k and k + ':'
                                 break
                 self.namespaces.update(xmlns)
